@@ -87,3 +87,104 @@ func H_C14_carriers() {
 	vrtAssert(refEqual(r1, r2), "result depends on the Go type that carries the number")
 	vrtReach("compared")
 }
+
+// c14Big returns value v (any int64 / uint64 magnitude, given as hi*2^32+lo with
+// symbolic parts) in carrier k, if it fits.
+func c14CarryBig(v uint64, neg bool, k int) (any, bool) {
+	switch k {
+	case 0:
+		if neg {
+			return vrtJNumFrom(-int(v), nfInt), v <= 1<<63-1
+		}
+		if v > 1<<63-1 {
+			return nil, false
+		}
+		return vrtJNumFrom(int(v), nfInt), true
+	case 1:
+		if neg {
+			return -int(v), v <= 1<<63-1
+		}
+		return int(v), v <= 1<<63-1
+	case 2:
+		if neg {
+			return -int64(v), v <= 1<<63-1
+		}
+		return int64(v), v <= 1<<63-1
+	case 3:
+		return uint(v), !neg
+	case 4:
+		return v, !neg
+	case 5:
+		if neg {
+			return -float64(v), v <= 1<<53
+		}
+		return float64(v), v <= 1<<53
+	case 6:
+		if neg {
+			return int32(-int64(v)), v <= 1<<31
+		}
+		return int32(v), v <= 1<<31-1
+	case 7:
+		return uint32(v), !neg && v <= 1<<32-1
+	default:
+		if neg {
+			return decimal128.FromInt64(-int64(v)), v <= 1<<63-1
+		}
+		return decimal128.FromUint64(v), true
+	}
+}
+
+var c14BigExprs = []string{"a + b", "a - b", "a * b", "a < b", "a == b", "a > `0`", "abs(a)", "max([a, b])", "sort([a, b])", "sum([a, b])", "a // b", "a % b", "-a", "[a, b][?@ > `9007199254740992`]", "ceil(a)"}
+
+// H_C14_extremes: values near the limits of the carriers (2^31, 2^32, 2^53,
+// 2^63, 2^64) and operands carried by *different* Go types.
+func H_C14_extremes() {
+	expr := c14BigExprs[vrtChoose("expr", len(c14BigExprs))]
+	vrtNote("template:" + expr)
+	bases := []uint64{1 << 31, 1 << 32, 1 << 53, 1 << 63, 1<<64 - 2}
+	base := bases[vrtChoose("base", len(bases))]
+	d := vrtIntRange("delta", -2, 2)
+	var va uint64
+	if d < 0 {
+		va = base - uint64(-d)
+	} else {
+		vrtAssume(base <= 1<<64-1-2 || d <= 1)
+		va = base + uint64(d)
+	}
+	vb := uint64(1 + vrtChoose("vb", 3)) // concrete: a symbolic divisor makes % and // non-linear
+	neg := vrtBool("neg")
+	// a is carried by two different types; b by one of four (so that pairs of
+	// operands of *different* kinds - float with integer, text with decimal -
+	// occur), the same in both evaluations
+	ca1, ca2 := vrtChoose("ca1", 9), vrtChoose("ca2", 9)
+	vrtAssume(ca1 < ca2)
+	cbs := []int{0, 2, 5, 8}
+	cb1 := cbs[vrtChoose("cb", len(cbs))]
+	cb2 := cb1
+	a1, ok1 := c14CarryBig(va, neg, ca1)
+	a2, ok2 := c14CarryBig(va, neg, ca2)
+	b1, ok3 := c14CarryBig(vb, false, cb1)
+	b2, ok4 := c14CarryBig(vb, false, cb2)
+	vrtAssume(ok1 && ok2 && ok3 && ok4)
+	// all intermediate values must be exactly representable in every carrier:
+	// results of arithmetic on values above 2^53 are not representable as
+	// float64, so floats only take part in comparisons and selections there
+	arith := expr == "a + b" || expr == "a - b" || expr == "a * b" || expr == "sum([a, b])" || expr == "a // b" || expr == "a % b"
+	if arith && va >= 1<<52 {
+		vrtAssume(ca1 != 5 && ca2 != 5 && cb1 != 5 && cb2 != 5)
+	}
+	if (expr == "a // b" || expr == "a % b") && neg {
+		return
+	}
+	r1, err1 := Search(expr, map[string]any{"a": a1, "b": b1})
+	r2, err2 := Search(expr, map[string]any{"a": a2, "b": b2})
+	vrtAssert((err1 == nil) == (err2 == nil), "one number type fails where the other succeeds")
+	if err1 != nil || err2 != nil {
+		if err1 != nil && err2 != nil {
+			vrtAssert(classOf(err1) == classOf(err2), "error category depends on the Go number type")
+		}
+		return
+	}
+	vrtAssert(refEqual(r1, r2), "result depends on the Go type that carries the number")
+	vrtReach("compared")
+}
